@@ -57,6 +57,18 @@ ALL = [f"C{i:02d}" for i in range(1, 19)]
 
 
 def main():
+    import importlib
+    import sys
+    sys.path.insert(0, VERIF)
+    for pid in ALL:
+        if pid in CHECKS:
+            continue
+        try:
+            m = importlib.import_module(f"vlib.p_{pid.lower()}")
+        except ModuleNotFoundError:
+            continue
+        if hasattr(m, "MANIFEST"):
+            CHECKS[pid] = dict(m.MANIFEST)
     checks = []
     for pid in ALL:
         c = CHECKS.get(pid)
